@@ -256,16 +256,20 @@ def facts() -> typing.Dict[str, bool]:
     cser = strip_comments(gen.read_repo('src/nunavut/lang/cpp/templates/serialization.j2'))
     cpp_ev, f['cpp_ser_stores_checked'] = seqs.cpp_ser_facts(macro, cser, csup)
     f['cpp_getters_bytewise'] = seqs.cpp_getters_bytewise(csup)
+    hk = seqs.cpp_hdr_check(macro, cdes)
+    f['cpp_hdr_check_nomul'] = hk == 'HDivCmp'
+    f['c_assert_max_not_under_override'] = seqs.c_assert_max_not_under_override(ser, cser)
+    _SEQS['hdr'] = hk
     _SEQS.update({'vla': seqs.coq_vla(seqs.vla_paths(macro(cdes, '_deserialize_variable_length_array').split('%}', 1)[1])), 'union': seqs.union_seqs(uni),
                   'cev': dict(seqs.c_event_seqs(macro, ser, des), **cpp_ev)})
     return f
 
 
 _SEQS: typing.Dict[str, typing.Any] = {}
-STATE = ['c_len_check_is_dsdl_capacity', 'c_len_check_storage', 'c_ser_guarded', 'c_des_ptr_clamped', 'cpp_subspan_clamped']   # either value is a recognised shape
+STATE = ['c_len_check_is_dsdl_capacity', 'c_len_check_storage', 'c_ser_guarded', 'c_des_ptr_clamped', 'cpp_subspan_clamped', 'cpp_hdr_check_nomul', 'c_assert_max_not_under_override']   # either value is a recognised shape
 ORDER = ['c_ser_up_front_first', 'c_ser_check_guard_is_override', 'c_ser_tag_chain_closed', 'c_ser_len_check_first', 'c_des_len_check_first',
          'c_len_check_is_dsdl_capacity', 'c_len_check_storage', 'c_ser_guarded', 'c_des_ptr_clamped', 'c_des_remaining_live', 'c_des_header_check_first', 'c_des_tag_chain_closed', 'c_des_bool_guarded', 'c_des_byte_guarded',
-         'c_getbits_zero_from_floor', 'cpp_ser_stores_checked', 'cpp_getters_bytewise', 'cpp_subspan_clamped', 'cpp_vla_clear_first', 'union_destroy_unfiltered', 'union_emplace_destroy_first']
+         'c_getbits_zero_from_floor', 'cpp_hdr_check_nomul', 'c_assert_max_not_under_override', 'cpp_ser_stores_checked', 'cpp_getters_bytewise', 'cpp_subspan_clamped', 'cpp_vla_clear_first', 'union_destroy_unfiltered', 'union_emplace_destroy_first']
 
 
 WIDTHS = {'uint8_t': 8, 'uint16_t': 16, 'uint32_t': 32, 'uint64_t': 64, 'unsigned char': 8}
@@ -317,6 +321,7 @@ def gen_c04() -> typing.Tuple[bool, str]:
     lines.append('\n(* statement sequences, in textual order; interpreted / decided on the Coq side *)\n')
     lines.append('Definition tpl_cpp_vla_paths : list (list vstmt) :=\n  %s.\n' % _SEQS['vla'])
     lines.append('Definition tpl_cpp_subspan_ptr : sexp := %s.\n' % _SEQS['subspan_ptr'])
+    lines.append('Definition tpl_cpp_hdr_check : hchk := %s.\n' % _SEQS['hdr'])
     lines.append('Definition tpl_cpp_setzeros_accesses : list zacc := %s.\n' % _SEQS['setzeros'])
     lines.append('Definition tpl_union_emplace : list ustmt := %s.\n' % _SEQS['union']['emplace'])
     lines.append('Definition tpl_union_ctor : list cstmt := %s.\n' % _SEQS['union']['ctor'])
